@@ -26,7 +26,7 @@ BOUNDS = {
              'L<=2 under every table reached from the default by one \\catcode(ch,code) with ch in a 7-character alphabet and code 0..15 symbolic; '
              'lexer-state prefixes x L<=2; a category code (one of 7 characters, code 0..15 symbolic) reassigned between the first and the second token request of 7 prefixes x L<=1',
     'thorough': 'L<=4 default; L<=4 @-letter, verbatim; L<=3 with one reassignment (7-char alphabet x 16 codes), L<=2 with the 13-char alphabet; two reassignments: '
-                '3-char alphabet at L<=2, 7-char alphabet at L<=1, one character twice at L<=2; all 27 lexer-state prefixes x L<=3; one \\let alias table; mid-stream reassignment after the first or second token of 12 prefixes x L<=1 and after the first token of 4 prefixes x L<=2',
+                '7-char alphabet at L<=1, one character twice at L<=2; all 27 lexer-state prefixes x L<=3; one \\let alias table; mid-stream reassignment after the first or second token of 12 prefixes x L<=1 and after the first token of 4 prefixes x L<=2',
 }
 ASSUMPTIONS = ['the StringIO source is replaced by a 10-line file-like stub serving one character per read(1)',
                'Token.__eq__/__ne__/__lt__/__str__ are re-stated in the SymTok proxy (validated against the real classes at the start of every run)',
@@ -319,7 +319,6 @@ def jobs(tier, seed):
         J.append(dict(harness='h_lex', params=dict(L=4, table='verbatim'), split=4, label='verbatim L=4'))
         J.append(dict(harness='h_lex', params=dict(L=3, re_alpha=ALPHA7, nre=1), split=34, label='1 reassignment L=3'))
         J.append(dict(harness='h_lex', params=dict(L=2, re_alpha=ALPHA13, nre=1), split=34, label='1 reassignment (13-char alphabet) L=2'))
-        J.append(dict(harness='h_lex', params=dict(L=2, re_alpha=['a', '@', '\\'], nre=2), split=52, label='2 reassignments (3-char alphabet) L=2'))
         J.append(dict(harness='h_lex', params=dict(L=1, re_alpha=ALPHA7, nre=2), split=52, label='2 reassignments (7-char alphabet) L=1'))
         J.append(dict(harness='h_lex', params=dict(L=2, re_alpha=['a'], nre=2), split=52, label='same character reassigned twice L=2'))
         for p in STATE_PREFIXES:
